@@ -721,6 +721,32 @@ theorem compileStmt_lower {scF : Scope} {x : Name} {rhs : Expr} {sc : Scope} {c 
       simp only [lowerCond, hρ, ea, eb, List.map_append, List.map_cons, List.map_nil, toVInstr]
     · cases hbe
 
+/-- **stage 2, bare statements.** An operator expression used as a statement (its value is dropped) compiles to
+its reference lowering: the code of the expression from temporary 0. -/
+theorem compileBare_lower {scF : Scope} {o : Op} {code : Nat} {a b : Expr} {sc : Scope} {c : CE}
+    (ho : pureOpcode o = some code) (hv : valueE (.sexp o a b) = true) (hinv : Inv sc)
+    (h : compileExpr (.sexp o a b) sc.clearTmps = .ok c)
+    (hr : Reach False c.sc scF) (hser : ∀ i ∈ c.instrs, SerI i) :
+    lowerStmt (rhoOf scF) (.sexp o a b) = some (c.instrs.map toVInstr) ∧ Inv c.sc := by
+  have hreach : Reach False sc c.sc :=
+    (Reach.single (Step.tmp _ _)).trans (compileExpr_reach (F := False) (fun f => f.elim) h).1
+  have hsn0 : SelfNamed sc.clearTmps := hinv.selfName.of_named (a := sc) (b := sc.clearTmps) rfl
+  have hinv' : Inv c.sc := ⟨compileExpr_selfNamed hsn0 h, hinv.flag_reach hreach⟩
+  refine ⟨?_, hinv'⟩
+  have hreg : SerR c.reg := by
+    have h' := h
+    unfold compileExpr at h'
+    obtain ⟨l, hl, h'⟩ := Out.bind_eq_ok.mp h'
+    obtain ⟨r, hr', h'⟩ := Out.bind_eq_ok.mp h'
+    obtain ⟨t, o', rfl, -, -⟩ := combine_pure ho h'
+    exact (hser _ (List.mem_append_right _ (List.mem_singleton.mpr rfl))).1
+  obtain ⟨el, -⟩ := compileExpr_lower (scF := scF) hv hsn0 h hr hser hreg
+    (by show ([] : List Reg).length ≤ 8; simp)
+  have e0 : sc.clearTmps.tmp.length = 0 := rfl
+  rw [e0] at el
+  rw [lowerStmt_bare ho, el]
+  rfl
+
 /-! ## the condition block -/
 
 theorem toVReg_flag : toVReg (.implicit 0 (.bool none)) = vFlag := rfl
@@ -803,9 +829,8 @@ theorem compileFlag_lower {scF : Scope} {flag : Expr} {sc : Scope} {is : List In
 /-! ## bodies, events, programs -/
 
 theorem stmtOk2_inv {e : Expr} (h : stmtOk2 e = true) :
-    e = .none ∨ ∃ x rhs, e = .sexp .bind (.atom (.name x)) rhs := by
-  unfold stmtOk2 at h
-  split at h <;> first | exact Or.inl rfl | exact Or.inr ⟨_, _, rfl⟩ | cases h
+    e = .none ∨ (∃ o l r code, e = .sexp o l r ∧ pureOpcode o = some code ∧ valueE (.sexp o l r) = true) ∨
+    ∃ x rhs, e = .sexp .bind (.atom (.name x)) rhs := stmtOk2_forms h
 
 /-- **stage 3b.** -/
 theorem compileBody_lower {scF : Scope} {body : List Expr} {sc : Scope} {is : List Instr}
@@ -820,11 +845,25 @@ theorem compileBody_lower {scF : Scope} {body : List Expr} {sc : Scope} {is : Li
   | cons e rest ih =>
     have hrest : ∀ e ∈ rest, stmtOk2 e = true := fun e he => hst e (List.mem_cons_of_mem _ he)
     unfold compileBody at h
-    rcases stmtOk2_inv (hst e List.mem_cons_self) with rfl | ⟨x, rhs, rfl⟩
+    rcases stmtOk2_inv (hst e List.mem_cons_self) with rfl | ⟨o, a, b, code, rfl, ho, hv⟩ | ⟨x, rhs, rfl⟩
     · rw [if_pos rfl] at h
       obtain ⟨e1, e2⟩ := ih hrest hinv h hser
       refine ⟨?_, e2⟩
       simp only [lowerBody, lowerStmt, e1, List.nil_append]
+    · rw [if_neg (by simp)] at h
+      obtain ⟨c, hc, h⟩ := Out.bind_eq_ok.mp h
+      split at h
+      · cases h
+      · obtain ⟨q, hq, h⟩ := Out.bind_eq_ok.mp h
+        obtain ⟨is', sc''⟩ := q
+        simp only [Out.pure_eq, Out.ok.injEq, Prod.mk.injEq] at h
+        obtain ⟨rfl, rfl⟩ := h
+        have hrc : Reach False c.sc scF := (compileBody_reach (F := False) (fun f => f.elim) hq).trans hr
+        obtain ⟨s1, s2⟩ := compileBare_lower (scF := scF) ho hv
+          hinv hc hrc (fun i hi => hser i (List.mem_append_left _ hi))
+        obtain ⟨e1, e2⟩ := ih hrest s2 hq (fun i hi => hser i (List.mem_append_right _ hi))
+        refine ⟨?_, e2⟩
+        simp only [lowerBody, s1, e1, List.map_append]
     · rw [if_neg (by simp)] at h
       obtain ⟨c, hc, h⟩ := Out.bind_eq_ok.mp h
       split at h
